@@ -76,9 +76,25 @@ func (g *gen) withState(st *state, f func()) {
 	g.outerState = saveOuter
 }
 
+// assignedOnce: the local variable is assigned exactly once (and by no closure): once initialised it denotes the same
+// value in every state.
+func assignedOnce(a *ssa.Alloc) bool {
+	if a.Referrers() == nil || cellWrittenElsewhere(a) {
+		return false
+	}
+	n := 0
+	for _, r := range *a.Referrers() {
+		if st, ok := r.(*ssa.Store); ok && st.Addr == ssa.Value(a) {
+			n++
+		}
+	}
+	return n <= 1
+}
+
 // loadLocal reads a local variable of the function under verification. Inside old(...) the heap is the entry heap, but a
-// local variable (which did not exist at entry) still denotes its current value: old(lhs.Op) is the entry value of field Op
-// of the node lhs points to now.
+// local variable that is assigned exactly once (and did not exist at entry) still denotes its current value: old(lhs.Op) is
+// the entry value of field Op of the node lhs points to now. Locals that are reassigned keep the usual meaning (their value
+// in the old state, e.g. at the loop header for per-iteration clauses).
 func (g *gen) loadLocal(pv Val, t types.Type) Val {
 	if g.outerState == nil {
 		return g.load(pv, t)
@@ -215,7 +231,7 @@ func (g *gen) lookupName(env *specEnv, name string) (Val, error) {
 			}
 			v := g.val(dr.v)
 			if dr.isAddr {
-				if _, isAlloc := dr.v.(*ssa.Alloc); isAlloc {
+				if a, isAlloc := dr.v.(*ssa.Alloc); isAlloc && assignedOnce(a) {
 					return g.loadLocal(v, dr.v.Type().Underlying().(*types.Pointer).Elem()), nil
 				}
 				return g.load(v, dr.v.Type().Underlying().(*types.Pointer).Elem()), nil
@@ -227,7 +243,10 @@ func (g *gen) lookupName(env *specEnv, name string) (Val, error) {
 			for _, ins := range b.Instrs {
 				if a, ok := ins.(*ssa.Alloc); ok && a.Comment == name {
 					if pv, ok := g.vals[a]; ok {
-						return g.loadLocal(pv, a.Type().(*types.Pointer).Elem()), nil
+						if assignedOnce(a) {
+							return g.loadLocal(pv, a.Type().(*types.Pointer).Elem()), nil
+						}
+						return g.load(pv, a.Type().(*types.Pointer).Elem()), nil
 					}
 				}
 			}
